@@ -94,16 +94,22 @@ theorem C09_handler_once (specs : List BgSpec) (hd : Handler) (snap : List Nat) 
     cases l <;> rfl
   rw [hf]; exact h1
 
-/-- … and is swallowed only if the handler returns a truthy value; otherwise it propagates. -/
-theorem C09_handler_verdict (s s' : FSt) (x e : Nat) (hstep : fstep? s (.handlerCalled x e) = some s') :
+/-- … and is swallowed only if the handler returns a truthy value; otherwise it propagates.
+(For a task that fails before it has started see C09_start.lean: its exception goes to the caller of
+`start_task` whatever the handler says.) -/
+theorem C09_handler_verdict (s s' : FSt) (x e : Nat) (hsf : s.startFailure x = false)
+    (hstep : fstep? s (.handlerCalled x e) = some s') :
     ∃ truthy, s.handler = .returns truthy ∧ s.statusOf x = some (.raisedPending e) ∧
       (truthy = true → s'.crashed = s.crashed) ∧ (truthy = false → s'.crashed = s.crashed ++ [e]) := by
-  exact fstep_handlerCalled s s' x e hstep
+  obtain ⟨truthy, hh, hst, _, ht, hf⟩ := fstep_handlerCalled s s' x e hstep
+  rw [hsf, Bool.or_false] at ht hf
+  exact ⟨truthy, hh, hst, ht, hf⟩
 
-/-- Without a handler the exception propagates at once. -/
-theorem C09_no_handler (s s' : FSt) (x e : Nat) (hh : s.handler = .absent)
+/-- Without a handler the exception propagates at once (unless the task had not started yet:
+C09_start.lean). -/
+theorem C09_no_handler (s s' : FSt) (x e : Nat) (hh : s.handler = .absent) (hsf : s.startFailure x = false)
     (hstep : fstep? s (.taskEnded x (some e)) = some s') : s'.crashed = s.crashed ++ [e] := by
-  exact fstep_taskEnded_absent s s' x e hh hstep
+  exact fstep_taskEnded_absent s s' x e hh hsf hstep
 
 /-- The exception of a task that had been cancelled through its handle (raised by its clean-up)
 is an exception like any other: it goes to the handler, or propagates at once if there is none —
@@ -112,10 +118,10 @@ theorem C09_cancelled_exception (s s' : FSt) (x e : Nat) (hst : s.statusOf x = s
     (hstep : fstep? s (.taskEnded x (some e)) = some s') :
     (s.handler = .absent ∧ s'.crashed = s.crashed ++ [e]) ∨
       (∃ t, s.handler = .returns t ∧ s'.statusOf x = some (.raisedPending e)) := by
-  -- `hst` is not needed: the conclusion holds for a task ending with an exception in any status
-  -- (Fc.fstep_taskEnded_some); with `hst` the step can only be the `failsWhenCancelled` one.
-  have _ := hst
-  exact fstep_taskEnded_some s s' x e hstep
+  -- the conclusion holds for a task ending with an exception in any status (Fc.fstep_taskEnded_some),
+  -- except for one that is still running and fails before it has started; `hst` excludes that
+  -- (with `hst` the step can only be the `failsWhenCancelled` one).
+  exact fstep_taskEnded_some s s' x e (Or.inr (by rw [hst]; simp)) hstep
 
 /-- What propagates out of the owning root context is exactly what was not swallowed. -/
 theorem C09_outcome (s s' : FSt) (leaves : List Nat) (hstep : fstep? s (.outcome leaves) = some s') :
